@@ -73,6 +73,16 @@ DELIVER in @OUT@/ : patch.diff (output of `git diff` for the SOURCE change only,
                           "pair resets), a precomputed table, a different internal data structure or encoding (bitmask, ring buffer, flat array), finer or "
                           "coarser locking that is still correct, an atomic write-temp-then-rename that cleans up after itself, batching, lazy "
                           "initialisation - the kind of change where a subtle mistake WOULD break the property, but done correctly. Other examples:")
+        if rnd.startswith("b3"):
+            t = t.replace("a refactoring, optimisation, clean-up or robustness improvement. Good examples:",
+                          "THIS ROUND: a change in the area where concurrency, buffering, sharing and the environment meet - done CORRECTLY: reuse or pool "
+                          "message / scratch buffers but never touch storage after it was handed over (copy before sending); build a burst of messages as a slice "
+                          "and still deliver it in order with blocking sends from the same goroutine; a per-call or per-device (never package-level or "
+                          "shared-between-devices) cache or scratch area; a helper goroutine whose result is awaited before the function returns and whose panic is "
+                          "recovered and turned into the same error; reading a file with a size hint taken from os.Stat (which follows symbolic links) with a "
+                          "fallback that still reads everything; comparing contents by digest of THIS file's own template; a lock-free fast path guarded by a counter "
+                          "that is maintained exactly; grouping keyed by the same field through a different representation. The kind of change where a subtle "
+                          "mistake WOULD break the property under some schedule, buffer size, file layout or input spelling, but done correctly. Other examples:")
         prev = []
     if pid in ("C16", "C17"):
         t += "\n" + LED_NOTE + "\n"
